@@ -191,7 +191,7 @@ void disasm_range_4004(
 
   while (start <= end)
   {
-    disasm_4004(
+    int count = disasm_4004(
       memory,
       start,
       instruction,
@@ -202,7 +202,7 @@ void disasm_range_4004(
 
     opcode = memory->read16(start);
 
-    printf("0x%04x: 0x%04x %-40s ", start / 2, opcode, instruction);
+    printf("0x%04x: 0x%04x %-40s ", start, opcode, instruction);
 
     if (cycles_min == 0)
     {
@@ -218,7 +218,7 @@ void disasm_range_4004(
       printf("%d-%d\n", cycles_min, cycles_max);
     }
 
-    start = start + 2;
+    start = start + count;
   }
 }
 
